@@ -221,18 +221,44 @@ var immutablePaths = map[string]string{
 	"claimNames.plural": "spec.claimNames.plural",
 }
 
+// swapCase changes nothing but the letter case (names are case sensitive: a change all the same).
+func swapCase(v string) string {
+	b := []byte(v)
+	for i, ch := range b {
+		switch {
+		case 'a' <= ch && ch <= 'z':
+			b[i] = ch - 'a' + 'A'
+		case 'A' <= ch && ch <= 'Z':
+			b[i] = ch - 'A' + 'a'
+		}
+	}
+	return string(b)
+}
+
+// mutateImmutable changes one immutable name: by appending to it or, for values of even length,
+// only in the case of its letters.
 func mutateImmutable(x *v1.CompositeResourceDefinition, f string) {
+	mut := func(v, suffix string) string {
+		if len(v)%2 == 0 && swapCase(v) != v {
+			return swapCase(v)
+		}
+		return v + suffix
+	}
 	switch f {
 	case "group":
-		x.Spec.Group = "changed." + x.Spec.Group
+		if len(x.Spec.Group)%2 == 0 && swapCase(x.Spec.Group) != x.Spec.Group {
+			x.Spec.Group = swapCase(x.Spec.Group)
+		} else {
+			x.Spec.Group = "changed." + x.Spec.Group
+		}
 	case "names.kind":
-		x.Spec.Names.Kind += "Changed"
+		x.Spec.Names.Kind = mut(x.Spec.Names.Kind, "Changed")
 	case "names.plural":
-		x.Spec.Names.Plural += "changed"
+		x.Spec.Names.Plural = mut(x.Spec.Names.Plural, "changed")
 	case "claimNames.kind":
-		x.Spec.ClaimNames.Kind += "Changed"
+		x.Spec.ClaimNames.Kind = mut(x.Spec.ClaimNames.Kind, "Changed")
 	case "claimNames.plural":
-		x.Spec.ClaimNames.Plural += "changed"
+		x.Spec.ClaimNames.Plural = mut(x.Spec.ClaimNames.Plural, "changed")
 	}
 }
 
